@@ -38,9 +38,9 @@ TRUSTED_BASE = [
     "the whole contents of what it writes (no partial writes); casts alias their source in the original program",
 ]
 ASSUMPTIONS = [
-    "realize_coherent is proved for one application of RealizeMemrefCasts on a flat block (uses of the cast "
-    "directly in the block, no loops inside the block) in any state; nested uses and whole-pass behaviour are "
-    "covered by correspondence and search",
+    "realize_coherent is proved for one application of the repaired RealizeMemrefCasts on a flat block (uses of the "
+    "cast directly in the block, no loops inside the block, no other name of the source buffer used in the block) in "
+    "any state and for any order of users; nested uses and whole-pass behaviour are covered by correspondence and search",
     "transform_constant is modelled at element granularity; dense => mixed_radix_sorted is checked by L1, not proved",
     "numpy argsort is stable on the short arrays that occur (insertion sort below 17 elements)",
     "subviews, globals, dynamic shapes and dart operations are outside the model (IR generator does not emit them)",
@@ -703,7 +703,7 @@ def correspondence(ctx):
         dis.append({"name": "L1:transpose_tuple", "case": tmeta[idx]})
 
     # ---- (b) programs
-    n = ctx.n(120, 3000)
+    n = ctx.n(100, 3000)
     pc, pm = [], []
     for p in CORPUS + [gen_program(rng) for _ in range(n)]:
         try:
